@@ -438,14 +438,18 @@ def ctx_equal(ctx, case, impl, model):
 
 
 def finish(ctx, level, obl, corr, rule, extra_cov=None, assumptions=None, classify=None, explain=None,
-           extra_violations=None):
+           extra_violations=None, harmless=None):
     """Common verdict logic. Prints KNOWN-FINDING / VIOLATION lines, writes evidence, returns exit code.
-    extra_violations: list of (key, text, payload) found by property-specific searches."""
+    extra_violations: list of (key, text, payload) found by property-specific searches.
+    harmless(case, impl, model) -> True when implementation and model differ on a mirrored observable but the
+    property's own executable predicates hold on the implementation's output (the model no longer mirrors the code;
+    not a failing input): such cases alone give `VIOLATION ... no-failing-input-found`."""
     pid = ctx.pid
     findings = known_findings(pid)
     viol = []          # (text, payload) unknown violations
     known_hit = {}
     dis = corr.get("disagreements", []) if corr else []
+    soft = []
     for (i, c, a, b) in dis:
         key = classify(c, a, b) if classify else None
         hit = None
@@ -455,6 +459,8 @@ def finish(ctx, level, obl, corr, rule, extra_cov=None, assumptions=None, classi
                     hit = (fk, ft)
         if hit:
             known_hit.setdefault(hit[0], (hit[1], c, a, b))
+        elif harmless and harmless(c, a, b):
+            soft.append({"case": c, "impl": a, "model": b, "index": i})
         else:
             viol.append(("correspondence: implementation and model differ", {"case": c, "impl": a, "model": b, "index": i}))
     for (key, text, payload) in (extra_violations or []):
@@ -477,6 +483,10 @@ def finish(ctx, level, obl, corr, rule, extra_cov=None, assumptions=None, classi
         broken.append(corr["error"])
     if extra_cov and extra_cov.get("coqchk_problems"):
         broken += extra_cov["coqchk_problems"]
+    if soft:
+        broken.append("correspondence no longer checks: implementation and model differ on %d case(s), while every "
+                      "executable clause of the property evaluated on the implementation's output holds in each of them "
+                      "(the model no longer mirrors the code); first: %s" % (len(soft), json.dumps(soft[0])[:1200]))
     if viol:
         text, payload = viol[0]
         replay = write_replay(pid, ctx.seed, {
@@ -493,7 +503,7 @@ def finish(ctx, level, obl, corr, rule, extra_cov=None, assumptions=None, classi
             "property": pid, "kind": "no-failing-input-found",
             "what": "a proof obligation or the correspondence machinery no longer checks; no concrete input on which the "
                     "property fails was found among %d explored cases" % (corr.get("n", 0) if corr else 0),
-            "broken": broken, "seed": ctx.seed, "tier": ctx.tier})
+            "broken": broken, "cases": [x["case"] for x in soft[:50]], "seed": ctx.seed, "tier": ctx.tier})
         log("VIOLATION property=%s replay=%s no-failing-input-found" % (pid, replay))
         for b in broken[:5]:
             log("  ", b[:1500])
@@ -513,6 +523,7 @@ def finish(ctx, level, obl, corr, rule, extra_cov=None, assumptions=None, classi
         "samples": corr.get("samples", []) if corr else [],
         "case_kinds": corr.get("kinds", {}) if corr else {},
         "disagreements": len(dis),
+        "disagreements_property_holds": len(soft),
         "known_findings_hit": sorted(known_hit),
         "timing": {k: corr.get(k) for k in ("harness_build_s", "impl_s", "model_s")} if corr else {},
         "coq_build_s": obl.get("build_s") if obl else None,
